@@ -38,6 +38,32 @@ def run(ctx):
         key = fnkey(b)
         pr = Prov(b, adapter_pred=lambda t: (t.get("callee") or {}).get("name") in ("new",) and "RootEntry" in (t.get("callee") or {}).get("def", ""))
         takes = [c for c in b.calls() if c.is_("core::option::Option::<T>::take") or c.is_("core::mem::take", "core::mem::replace")]
+        if not is_drop(b) and not takes:
+            # split form: the destructor takes the entry and hands it (by value) to this helper, which closes and appends it
+            closes = [c for c in b.calls() if c.is_trait_method("CloseValue", "close")]
+            aps = [c for c in b.calls() if c.is_trait_method("EntrySink", "append")]
+            ok1, why1 = exactly_once(b, [c.bb for c in closes])
+            ok2, why2 = exactly_once(b, [c.bb for c in aps])
+            ctx.check(ok1 and ok2, "R06.1", key + "#close-and-append-exactly-once", loc(b), "the helper does not close and append exactly once on every path (%s / %s)" % (why1, why2))
+            if closes and aps:
+                dom = b.dominators()
+                ctx.check(dominates(b, closes[0].bb, aps[0].bb, dom), "R06.1", key + "#take<close<append", loc(b), "order close < append violated")
+                ctx.check(("call", closes[0].bb) in pr.operand(aps[0].args[1]), "R06.1", key + "#appends-the-closed-entry", loc(b, aps[0].bb), "the appended value is not the closed entry")
+                ctx.check(any(x[0] == "arg" for x in pr.operand(closes[0].args[0])), "R06.1", key + "#closes-the-taken-entry", loc(b, closes[0].bb), "close is not applied to the entry handed in")
+            # in each calling destructor: take exactly once, the taken entry is what the helper receives, helper called once when present
+            for cs in F.callers_of(b.path, crates=[MQ]):
+                d_ = cs.body
+                dk = fnkey(d_)
+                dtakes = [c for c in d_.calls() if c.is_("core::option::Option::<T>::take") or c.is_("core::mem::take", "core::mem::replace")]
+                okt, whyt = exactly_once(d_, [c.bb for c in dtakes])
+                ctx.check(okt, "R06.1", dk + "#take-exactly-once", loc(d_), "take is not executed exactly once on every path of the destructor: %s" % whyt)
+                dpr = Prov(d_, adapter_pred=lambda t: (t.get("callee") or {}).get("name") in ("expect", "unwrap"))
+                fed = any(any(x[0] in ("call", "via", "callf") and x[1] in [t_.bb for t_ in dtakes] for x in dpr.operand(a)) for a in cs.args)
+                ctx.check(fed and bool(dtakes) and all(dominates(d_, t_.bb, cs.bb, d_.dominators()) for t_ in dtakes), "R06.1", dk + "#closes-the-taken-entry", loc(d_, cs.bb),
+                          "the entry handed to the close-and-append helper is not the one taken out of the owner")
+                th = [c for c in d_.calls() if c.is_in("std::thread", "panicking")]
+                ctx.check(not th, "R06.1", dk + "#no-panicking-escape", loc(d_), "destructor consults thread::panicking(): the entry would be lost while unwinding")
+            continue
         closes = [c for c in b.calls() if c.is_trait_method("CloseValue", "close")]
         aps = [c for c in b.calls() if c.is_trait_method("EntrySink", "append")]
         ok, why = exactly_once(b, [c.bb for c in takes])
@@ -78,7 +104,14 @@ def run(ctx):
         len(cell_clones), [b.path for b, _ in cell_clones]))
     for b, c in cell_clones:
         # the clone ends up captured by a closure stored in the guard
-        cls = F.closures_of(b)
+        cls = list(F.closures_of(b))
+        # ... or by a closure of a private constructor helper the clone is handed to (e.g. `Guard::keeping_alive(value.clone())`)
+        prb = Prov(b)
+        for x in b.calls():
+            if x is not c and any(any(o[0] in ("call", "via") and o[1] == c.bb for o in prb.operand(a)) for a in x.args):
+                for sb in local_callee_bodies(F, x):
+                    if sb.crate == MQ:
+                        cls += list(F.closures_of(sb))
         ctx.check(any(any(x.is_("core::mem::drop") for x in cb.calls()) or cb.blocks for cb in cls) and bool(cls), "R06.2", fnkey(b) + "#clone-owned-by-guard-closure", loc(b, c.bb), "the cell clone is not moved into the guard closure")
     guard_adts = [a for a in F.adts.values() if a["crate"] == MQ and a["def"].endswith("keep_alive::Guard")]
     ctx.floor("R06.2", "guard token type", len(guard_adts), 1)
